@@ -203,7 +203,7 @@ class P(Prop):
                     return bad("levelize", f"level of {n} = {lv[n]} != longest path to a source {longest_from(c, [n], False)}")
             # kcuts: every cut other than {n} has <= k nodes and separates n from all sources
             nd = self.rng.choice(nodes)
-            k = self.rng.randint(1, 4)
+            k = self.kcut_k if getattr(self, "kcut_k", None) is not None else self.rng.randint(1, 4)
             o, cuts = call(c.kcuts, nd, k)
             if o != "ok":
                 return bad("kcuts-raised", f"kcuts raised {o}")
@@ -212,7 +212,7 @@ class P(Prop):
                 if cut == {nd}:
                     continue
                 if len(cut) > k:
-                    return bad("kcuts-size", f"cut {sorted(cut)} larger than {k}")
+                    return bad("kcuts-size" + (":k=0" if k == 0 else ""), f"cut {sorted(cut)} larger than {k}")
                 g2 = c.graph.copy()
                 g2.remove_nodes_from(cut)
                 for s in sources:
@@ -240,6 +240,14 @@ class P(Prop):
         c.add("b", "buf", fanin="n")
         c.add("a", "and", fanin=["n", "b"], output=True)
         self.oracle(c)
+        # K26: kcuts with k = 0 (single-fan-in nodes pass their fan-in's cuts through unfiltered)
+        c = cg.Circuit()
+        c.add("a", "input")
+        c.add("b", "buf", fanin="a", output=True)
+        self.kcut_k = 0
+        for _ in range(4):
+            self.oracle(c)
+        self.kcut_k = None
         # K6b: levelize with a blackbox output
         c = cg.Circuit()
         c.add("o", "buf", output=True)
